@@ -28,6 +28,14 @@ import (
 // VerifDir is where MANIFEST.json, evidence/ and known_findings.txt live.
 var VerifDir = "/verif"
 
+func init() {
+	// tools/allseeds_par.sh runs several checks at once against scratch copies of the repository and
+	// gives each its own output directory (with a copy of known_findings.txt)
+	if d := os.Getenv("VERIF_OUT_DIR"); d != "" {
+		VerifDir = d
+	}
+}
+
 // Violation is one observed contradiction of the property.
 type Violation struct {
 	Key    string      `json:"key"`  // stable key naming the failing input / call site / history
